@@ -49,7 +49,7 @@ ProjFor(s) ==
 ResMatch(op, a0, b) ==
     LET a == IF IsWin THEN [a0 EXCEPT !.err = WinErr(@), !.info = [@ EXCEPT !.m = 0, !.u = 0, !.g = 0]] ELSE a0 IN
     /\ a.err = b.err
-    /\ (a.err \in {"ok", "EOF"}) =>
+    /\ (a.err \in {"ok", "EOF"} \/ (op = "walk" /\ a.err = "ECALLBACK")) =>
         CASE op \in {"stat", "lstat", "fstat"} ->
                 IF Orefa(Impl) THEN [a.info EXCEPT !.u = 0, !.g = 0] = b.info ELSE a.info = b.info
           [] op \in {"readlink", "evalsymlinks", "getwd"} -> a.path = b.path
@@ -58,6 +58,8 @@ ResMatch(op, a0, b) ==
           [] op \in {"readfile", "read", "readat"} -> a.n = b.n /\ a.data = b.data
           [] op \in {"write", "writestring", "writeat", "seek", "open"} -> a.n = b.n
           [] op \in {"createtemp", "mkdirtemp"} -> a.n = b.n /\ a.names = b.names
+          [] op \in {"glob", "walk"} -> a.names = b.names
+          [] op \in {"exists", "direxists", "isdir", "isempty"} -> a.n = b.n
           [] OTHER -> TRUE
 
 Matches(o, ev) ==
